@@ -919,7 +919,9 @@ Lemma m_close_waits evs c sb :
   In c (m_clos (m_run evs)) -> In sb (m_subs (m_run evs)) -> s_res sb = ROk ->
   let s := m_run evs in
   (exists r, In r (m_runs s) /\ r_task r = s_task sb /\ r_e r < l_e c)
-  \/ (~ In (s_task sb) (map r_task (m_runs s)) /\ exists d, In d (m_drains s) /\ d_shard d = s_shard sb).
+  \/ (~ In (s_task sb) (map r_task (m_runs s))
+      /\ (exists d, In d (m_drains s) /\ d_shard d = s_shard sb)
+      /\ (forall r, In r (m_runs s) -> r_shard r = s_shard sb -> r_b r < s_e sb)).
 Proof.
   intros Hc Hin Hr s. pose proof (inv_run evs) as HI. fold s in HI, Hc, Hin. pose proof (q_close _ _ HI) as HC.
   unfold close_inv in HC. destruct (m_close s).
@@ -935,13 +937,15 @@ Proof.
       * intro Ht. apply cnt_In in Ht. apply cnt_In in Hsh. lia.
       * apply in_flat_map_nth in Hsh. destruct Hsh as (k & Hk & Hin').
         unfold sh_tasks in Hin'. apply in_map_iff in Hin'. destruct Hin' as ([x e] & Ex & Hit). cbn [fst] in Ex. subst x.
-        destruct (q_link _ _ HI k _ e Hit) as (sb' & A & B & _ & D & _).
+        destruct (q_link _ _ HI k _ e Hit) as (sb' & A & B & _ & D & F).
         assert (sb' = sb) by (apply (m_sub_unique evs); auto). subst sb'.
         pose proof (all_unscheduled_nth _ k Hall) as Htok.
         unfold sh_items in Hit. unfold m_sh in *. rewrite Htok in Hit. cbn [tok_items app] in Hit.
-        destruct (q_ktwo _ _ HI k Hk Htok) as (d & Hd & Ed).
-        { intro E0. unfold m_sh in E0. rewrite E0 in Hit. destruct Hit. }
-        exists d. split; [exact Hd|congruence].
+        split.
+        -- destruct (q_ktwo _ _ HI k Hk Htok) as (d & Hd & Ed).
+           { intro E0. unfold m_sh in E0. rewrite E0 in Hit. destruct Hit. }
+           exists d. split; [exact Hd|congruence].
+        -- intros r Hr0 Hs. rewrite F. apply (q_none _ _ HI k Htok _ e Hit r Hr0). congruence.
     + left. apply in_map_iff in Hran. destruct Hran as (r & Er & Hr'). exists r. repeat split; auto.
 Qed.
 
@@ -961,15 +965,19 @@ Proof.
     apply andb_true_iff; split; [apply andb_true_iff; split|]; [exact A|exact B|exact (m_fifo evs)].
   - intros c Hc _ sb Hin Hr.
     assert (Er : s_res sb = ROk) by (destruct (s_res sb); try discriminate; reflexivity).
-    destruct (m_close_waits evs c sb Hc Hin Er) as [(r & A & B & C)|(Hnt & d & Hd & Ed)].
+    destruct (m_close_waits evs c sb Hc Hin Er) as [(r & A & B & C)|(Hnt & (d & Hd & Ed) & Hlate)].
     + left. apply task_code_zero. eapply terminal_before_run; eauto.
     + right. unfold task_code.
       assert (Hnt' : ~ In (s_task sb) (terminal_ids (m_hist (m_run evs)))).
       { unfold terminal_ids, m_hist. cbn [h_runs h_cans map]. rewrite app_nil_r. exact Hnt. }
       rewrite (terminal_before_false _ _ _ Hnt'), (has_terminal_false _ _ Hnt').
       replace (c_kind (h_cfg (m_hist (m_run evs)))) with KMailbox by (symmetry; exact kind_mb).
-      replace (existsb (fun d0 => d_shard d0 =? s_shard sb) (h_drains (m_hist (m_run evs)))) with true; [reflexivity|].
-      symmetry. apply existsb_exists. exists d. split; [exact Hd|apply N.eqb_eq; exact Ed].
+      replace (existsb (fun d0 => d_shard d0 =? s_shard sb) (h_drains (m_hist (m_run evs)))) with true.
+      * replace (no_later_run_on_shard (m_hist (m_run evs)) sb) with true; [reflexivity|].
+        symmetry. unfold no_later_run_on_shard. apply forallb_forall. intros r Hr0.
+        destruct (N.eqb_spec (r_shard r) (s_shard sb)) as [Es|Ns]; [|reflexivity]. cbn [negb orb].
+        apply N.ltb_lt. apply Hlate; assumption.
+      * symmetry. apply existsb_exists. exists d. split; [exact Hd|apply N.eqb_eq; exact Ed].
 Qed.
 
 Theorem m_accepts evs : C37_mismatch (m_hist (m_run evs)) = false.
